@@ -397,6 +397,7 @@ func runC07(c *Check) {
 		<-stMu
 	})
 	c07Bundles(c, r, quick)
+	c07ComposeUnmappedRegions(c, r)
 	c.Sub("mappings_checked", uint64(r.st.mappings))
 	c.Sub("marker_mappings_checked", uint64(r.st.markerChecked))
 	c.Sub("names_checked", uint64(r.st.nameChecked))
@@ -727,6 +728,51 @@ func c07CheckOutputsOpt(c *Check, r *c07Run, key, dir string, outs []api.OutputF
 		}
 		if r.st.markerChecked == before {
 			c.Sub("vacuous_maps", 1)
+		}
+	}
+}
+
+// c07ComposeUnmappedRegions: the input of stage 2 is itself a minified *bundle* whose map contains segments without a
+// source (the code of a base64/dataurl/binary/file-loader module between two mapped modules, all on one line). The
+// mappings of the modules after the unmapped region must still point at their originals.
+func c07ComposeUnmappedRegions(c *Check, r *c07Run) {
+	root := scratchRoot("c07u")
+	defer os.RemoveAll(root)
+	files := map[string]string{
+		"src/s.js": "import { m1_ } from './p.js';\nimport m2_ from './q.bin';\nimport { m3_ } from './r.js';\nm4_(m1_, m2_, m3_, 'S5', 9006);\n",
+		// (the module before the unmapped region ends in one long token, so the segment without a source lies far from the last mapping)
+		"src/p.js":  "export function m1_(m7_) { return m7_ + 9008 + 'S9' }\nm20_.m21_ = 'a rather long string literal, one token of sixty-odd columns, as the last token';\n",
+		"src/q.bin": "binary \x00 data",
+		"src/r.js":  "export const m3_ = (m10_, m11_) => m10_ * m11_ + 9012 + 'S13';\nm14_(`T15`);\n",
+		"src/t.js":  "import m16_ from './q.bin';\nimport { m3_ as m17_ } from './r.js';\nm18_(m16_, m17_, 'S19');\n",
+	}
+	for li, loader := range []api.Loader{api.LoaderBase64, api.LoaderDataURL, api.LoaderBinary, api.LoaderText, api.LoaderFile} {
+		for _, entry := range []string{"src/s.js", "src/t.js"} {
+			for _, ws := range []bool{true, false} {
+				dir := filepath.Join(root, fmt.Sprintf("u%d%v%s", li, ws, filepath.Base(entry)))
+				writeTree(dir, files)
+				r1 := api.Build(api.BuildOptions{AbsWorkingDir: dir, EntryPoints: []string{entry}, Bundle: true, Format: api.FormatESModule, MinifyWhitespace: ws, Sourcemap: api.SourceMapLinked,
+					Outdir: filepath.Join(dir, "mid"), Outbase: filepath.Join(dir, "src"), Loader: map[string]api.Loader{".bin": loader}, Write: true, LogLevel: api.LogLevelSilent})
+				c.Eval(1)
+				if len(r1.Errors) > 0 {
+					c.Violation(fmt.Sprintf("compose-unmapped:stage1:%d", li), map[string]interface{}{"kind": "stage 1 build fails", "error": r1.Errors[0].Text})
+					continue
+				}
+				for _, minify := range []bool{false, true} {
+					o := api.BuildOptions{AbsWorkingDir: dir, EntryPoints: []string{filepath.Join(dir, "mid", strings.TrimPrefix(entry, "src/"))}, Bundle: true, Format: api.FormatESModule, MinifyWhitespace: minify, MinifyIdentifiers: minify,
+						Sourcemap: api.SourceMapLinked, Outdir: filepath.Join(dir, "out2"), Write: false, LogLevel: api.LogLevelSilent}
+					res := api.Build(o)
+					c.Eval(1)
+					key := fmt.Sprintf("compose-unmapped:loader=%d:stage1-minify-ws=%v:stage2-minify=%v:%s", loader, ws, minify, entry)
+					if len(res.Errors) > 0 {
+						c.Violation(key, map[string]interface{}{"kind": "stage 2 bundle fails", "error": res.Errors[0].Text})
+						continue
+					}
+					c07CheckOutputsOpt(c, r, key, dir, res.OutputFiles, api.SourceMapLinked, true, "", files, false, map[string]string{"m17_": "m3_"}, false, map[string][2]int{})
+					c.Sub("composed_bundles_with_unmapped_regions", 1)
+				}
+				os.RemoveAll(dir)
+			}
 		}
 	}
 }
